@@ -98,6 +98,18 @@ type attempts struct {
 	wg      sync.WaitGroup
 }
 
+// decoy is a source that must never be subscribed.
+func (a *attempts) decoy() ro.Observable[any] {
+	return ro.NewUnsafeObservableWithContext(func(ctx context.Context, dest ro.Observer[any]) ro.Teardown {
+		a.mu.Lock()
+		a.issues = append(a.issues, "the decoy source of another application of the same operator value was subscribed")
+		a.mu.Unlock()
+		dest.NextWithContext(ctx, any(-99))
+		dest.CompleteWithContext(ctx)
+		return nil
+	})
+}
+
 func (a *attempts) outcome(i int) ROutcome {
 	if i <= len(a.c.Outs) {
 		return a.c.Outs[i-1]
@@ -142,7 +154,7 @@ func (a *attempts) source(fixed int) ro.Observable[any] {
 				dest.CompleteWithContext(ctx)
 			}
 		}
-		if a.mode == "sync" {
+		if a.mode != "async" {
 			play()
 		} else {
 			a.wg.Add(1)
@@ -156,7 +168,32 @@ func (a *attempts) source(fixed int) ro.Observable[any] {
 	})
 }
 
+// buildResub builds the pipeline of a case.  The operator forms are built as an operator VALUE first; in the modes apply-decoy-first /
+// apply-real-first that one value is also applied to a decoy source that is never subscribed (C12 / C15: an operator value is a recipe -
+// applying it to another source must not change the pipeline over the real source).
 func buildResub(c *RCase, a *attempts) (ro.Observable[any], error) {
+	op, first, err := buildResubOp(c, a)
+	if err != nil {
+		return nil, err
+	}
+	if op == nil {
+		return first, nil
+	}
+	switch a.mode {
+	case "apply-decoy-first":
+		_ = op(a.decoy())
+		return op(first), nil
+	case "apply-real-first":
+		o := op(first)
+		_ = op(a.decoy())
+		return o, nil
+	}
+	return op(first), nil
+}
+
+type opFn = func(ro.Observable[any]) ro.Observable[any]
+
+func buildResubOp(c *RCase, a *attempts) (opFn, ro.Observable[any], error) {
 	ncond := 0
 	var cmu sync.Mutex
 	cond := func() bool {
@@ -178,54 +215,57 @@ func buildResub(c *RCase, a *attempts) (ro.Observable[any], error) {
 	src := a.source(0)
 	switch c.O.G {
 	case "Retry":
-		return ro.Retry[any]()(src), nil
+		return ro.Retry[any](), src, nil
 	case "RetryWithConfig":
-		return ro.RetryWithConfig[any](ro.RetryConfig{MaxRetries: uint64(c.O.M), ResetOnSuccess: c.O.R})(src), nil
+		return ro.RetryWithConfig[any](ro.RetryConfig{MaxRetries: uint64(c.O.M), ResetOnSuccess: c.O.R}), src, nil
 	case "RepeatWith":
-		return ro.RepeatWith[any](int64(c.O.M))(src), nil
+		return ro.RepeatWith[any](int64(c.O.M)), src, nil
 	case "DoWhile":
-		return ro.DoWhile[any](cond)(src), nil
+		return ro.DoWhile[any](cond), src, nil
 	case "DoWhileI":
-		return ro.DoWhileI[any](condI)(src), nil
+		return ro.DoWhileI[any](condI), src, nil
 	case "DoWhileWithContext":
-		return ro.DoWhileWithContext[any](func(ctx context.Context) (context.Context, bool) { return ctx, cond() })(src), nil
+		return ro.DoWhileWithContext[any](func(ctx context.Context) (context.Context, bool) { return ctx, cond() }), src, nil
 	case "DoWhileIWithContext":
-		return ro.DoWhileIWithContext[any](func(ctx context.Context, i int64) (context.Context, bool) { return ctx, condI(i) })(src), nil
+		return ro.DoWhileIWithContext[any](func(ctx context.Context, i int64) (context.Context, bool) { return ctx, condI(i) }), src, nil
 	case "While":
-		return ro.While[any](cond)(src), nil
+		return ro.While[any](cond), src, nil
 	case "WhileI":
-		return ro.WhileI[any](condI)(src), nil
+		return ro.WhileI[any](condI), src, nil
 	case "WhileWithContext":
-		return ro.WhileWithContext[any](func(ctx context.Context) (context.Context, bool) { return ctx, cond() })(src), nil
+		return ro.WhileWithContext[any](func(ctx context.Context) (context.Context, bool) { return ctx, cond() }), src, nil
 	case "WhileIWithContext":
-		return ro.WhileIWithContext[any](func(ctx context.Context, i int64) (context.Context, bool) { return ctx, condI(i) })(src), nil
+		return ro.WhileIWithContext[any](func(ctx context.Context, i int64) (context.Context, bool) { return ctx, condI(i) }), src, nil
 	case "Catch":
-		return ro.Catch(func(err error) ro.Observable[any] { return a.source(2) })(a.source(1)), nil
+		return ro.Catch(func(err error) ro.Observable[any] { return a.source(2) }), a.source(1), nil
 	case "OnErrorResumeNextWith":
 		var rest []ro.Observable[any]
 		for k := 2; k <= c.O.M; k++ {
 			rest = append(rest, a.source(k))
 		}
-		return ro.OnErrorResumeNextWith(rest...)(a.source(1)), nil
+		return ro.OnErrorResumeNextWith(rest...), a.source(1), nil
 	case "Concat":
 		var all []ro.Observable[any]
 		for k := 1; k <= c.O.M; k++ {
 			all = append(all, a.source(k))
 		}
-		return ro.Concat(all...), nil
+		return nil, ro.Concat(all...), nil
 	case "ConcatWith":
 		var rest []ro.Observable[any]
 		for k := 2; k <= c.O.M; k++ {
 			rest = append(rest, a.source(k))
 		}
-		return ro.ConcatWith(rest...)(a.source(1)), nil
+		return ro.ConcatWith(rest...), a.source(1), nil
 	}
-	return nil, fmt.Errorf("resub catalogue: no constructor for %q", c.O.G)
+	return nil, nil, fmt.Errorf("resub catalogue: no constructor for %q", c.O.G)
 }
 
 func ReplayResub(idx int, c *RCase, mode string, out *[]Mismatch) {
 	name := fmt.Sprintf("%s(%d,%v)", c.O.G, c.O.M, c.O.R)
 	add := func(class, detail string) {
+		if strings.HasPrefix(mode, "apply-") && class != "hang" && class != "catalogue" && class != "overlap" {
+			class = "reuse-" + class // one operator value applied to two sources (C12)
+		}
 		*out = append(*out, Mismatch{Case: idx, Chain: name, Mode: mode, Step: 0, Class: class, Detail: detail})
 	}
 	a := &attempts{c: c, mode: mode}
@@ -290,7 +330,7 @@ func ReplayResub(idx int, c *RCase, mode string, out *[]Mismatch) {
 		add("hang", "the producer of an attempt is still blocked inside the pipeline 10s after Subscribe returned")
 		return
 	}
-	if mode != "sync" && sub != nil {
+	if mode == "async" && sub != nil {
 		// asynchronous attempts: the operators wait inside Subscribe, so everything is over when it returns
 	}
 	var exp []string
@@ -314,7 +354,11 @@ func ReplayResub(idx int, c *RCase, mode string, out *[]Mismatch) {
 		add("attempts", fmt.Sprintf("outcomes %v conds %v cancelAt %d: %d subscriptions to the source(s), the definition says %d", c.Outs, c.Conds, c.CancelAt, started, c.Exp.NSubs))
 	}
 	for _, is := range issues {
-		add("overlap", is)
+		if strings.Contains(is, "decoy") {
+			add("sub", is)
+		} else {
+			add("overlap", is)
+		}
 	}
 	if sub != nil {
 		if !sub.IsClosed() {
